@@ -259,7 +259,20 @@ def try_op(fn):
     try:
         return fn(), None, None
     except Exception as exc:      # noqa: the class is what the oracles look at
-        return None, type(exc).__name__, exc
+        return None, exc_class(exc), exc
+
+
+_BUILTIN_EXC = (IndexError, KeyError, ValueError, TypeError, OSError, EOFError, RuntimeError, AttributeError,
+                ZeroDivisionError, OverflowError, MemoryError, AssertionError, StopIteration)
+
+
+def exc_class(exc):
+    """The name of the nearest built-in exception class of `exc`: a library-defined subclass of IndexError is an
+    IndexError as far as any statement of the form "raises IndexError" goes."""
+    for cls in type(exc).__mro__:
+        if cls in _BUILTIN_EXC:
+            return cls.__name__
+    return type(exc).__name__
 
 
 class Keeper(object):
